@@ -120,6 +120,48 @@ mod sel {
         ran("hx_select_e2e::sel::C:\\dir")
     }
 
+    // A function and a sibling group module with the same identifier; the
+    // module holds generic benchmarks only (they register after the plain
+    // ones) and overrides its display name.
+    #[divan::bench]
+    fn fast() {
+        ran("hx_select_e2e::sel::fast")
+    }
+
+    #[divan::bench_group(name = "quick")]
+    pub mod fast {
+        use super::ran;
+
+        #[divan::bench(types = [i32, u8])]
+        fn gen<T: 'static>() {
+            let t = std::any::type_name::<T>();
+            ran(&format!("hx_select_e2e::sel::quick::gen::{t}"))
+        }
+    }
+
+    // Generic over a type AND a const, with non-primitive types: the type
+    // level of the path is the type's display name (module path stripped up
+    // to the first generic boundary).
+    pub struct Square;
+
+    pub trait ShapeTag {
+        const TAG: &'static str;
+    }
+    impl ShapeTag for String {
+        const TAG: &'static str = "String";
+    }
+    impl ShapeTag for Square {
+        const TAG: &'static str = "Square";
+    }
+    impl ShapeTag for Vec<String> {
+        const TAG: &'static str = "Vec<alloc::string::String>";
+    }
+
+    #[divan::bench(types = [String, Square, Vec<String>], consts = [1, 2])]
+    fn shape<T: ShapeTag + 'static, const N: usize>() {
+        ran(&format!("hx_select_e2e::sel::shape::{}::{N}", T::TAG))
+    }
+
     pub mod alpha {
         use super::ran;
 
